@@ -131,7 +131,7 @@ class Item(object):
     __slots__ = ('kind', 'name', 'line', 'attrs', 'toks', 'start', 'end', 'children',
                  'trait', 'self_ty', 'parent', 'fname',
                  'sig_params', 'sig_ret', 'body', 'ty_rng', 'init_rng', 'tuple_rng', 'brace_rng',
-                 'is_test', 'parsed', 'generics')
+                 'is_test', 'parsed', 'generics', 'trait_arg', 'self_ref', 'nested')
 
     def __init__(self, kind, name, line):
         self.kind = kind
@@ -153,15 +153,22 @@ class Item(object):
         self.is_test = False
         self.parsed = None
         self.generics = None
+        self.trait_arg = None   # impl Trait<Arg> for T: main name of the first generic argument
+        self.self_ref = False   # impl ... for &'a T
+        self.nested = None      # items declared inside a fn body (lazily scanned)
 
     def qualname(self):
         p = self.parent
         if p is not None and p.kind == 'impl':
+            pre = ''
+            if p.parent is not None and p.parent.kind in ('fn', 'mod'):
+                pre = p.parent.qualname() + '::'
             if p.trait:
-                return '<%s as %s>::%s' % (p.self_ty, p.trait, self.name)
-            return '%s::%s' % (p.self_ty, self.name)
-        if p is not None and p.kind == 'mod':
-            return '%s::%s' % (p.name, self.name)
+                tr = p.trait + ('<%s>' % p.trait_arg if p.trait_arg else '')
+                return '%s<%s%s as %s>::%s' % (pre, '&' if p.self_ref else '', p.self_ty, tr, self.name)
+            return '%s%s::%s' % (pre, p.self_ty, self.name)
+        if p is not None and p.kind in ('mod', 'fn'):
+            return '%s::%s' % (p.qualname(), self.name)
         return self.name
 
     def token_texts(self):
@@ -255,9 +262,11 @@ def _type_main_name(toks, a, b):
     return name
 
 
-def scan_items(toks, i, end, fname, parent=None, in_test=False):
+def scan_items(toks, i, end, fname, parent=None, in_test=False, max_items=None):
     items = []
     while i < end:
+        if max_items is not None and len(items) >= max_items:
+            break
         start = i
         attrs = []
         # attributes
@@ -374,6 +383,29 @@ def scan_items(toks, i, end, fname, parent=None, in_test=False):
             if for_at is not None:
                 it.trait = _type_main_name(toks, j, for_at)
                 it.self_ty = _type_main_name(toks, for_at + 1, hdr_end)
+                it.self_ref = toks[for_at + 1][0] == 'p' and toks[for_at + 1][1] in ('&', '&&')
+                for w in range(j, for_at):
+                    if toks[w][0] == 'p' and toks[w][1] == '<':
+                        g_end = skip_angles(toks, w) - 1
+                        # first generic argument (skip lifetimes)
+                        a0 = w + 1
+                        depth = 0
+                        a1 = g_end
+                        for v in range(a0, g_end):
+                            x = toks[v]
+                            if x[0] == 'p':
+                                if x[1] in ('<', '(', '['):
+                                    depth += 1
+                                elif x[1] in ('>', ')', ']'):
+                                    depth -= 1
+                                elif x[1] == ',' and depth == 0:
+                                    if all(t[0] == 'lt' for t in toks[a0:v]):
+                                        a0 = v + 1
+                                        continue
+                                    a1 = v
+                                    break
+                        it.trait_arg = _type_main_name(toks, a0, a1)
+                        break
             else:
                 it.self_ty = _type_main_name(toks, j, hdr_end)
             it.name = it.self_ty
@@ -494,3 +526,136 @@ class SourceFile(object):
             if it.kind == 'impl' and (self_ty is None or it.self_ty == self_ty):
                 if trait is False or it.trait == trait:
                     yield it
+
+
+def nested_items(fn_item):
+    """struct / impl / fn items declared directly inside the body of `fn_item` (cached)."""
+    if fn_item.nested is not None:
+        return fn_item.nested
+    out = []
+    if fn_item.body is not None:
+        toks = fn_item.toks
+        a, b = fn_item.body
+        i = a + 1
+        end = b - 1
+        stmt_start = True
+        while i < end:
+            t = toks[i]
+            if stmt_start and ((t[0] == 'p' and t[1] == '#') or
+                               (t[0] == 'id' and t[1] in ('struct', 'impl', 'fn'))):
+                # attributes may precede a non-item statement: look ahead
+                j = i
+                while j < end and toks[j][0] == 'p' and toks[j][1] == '#':
+                    j += 1
+                    if j < end and toks[j][1] == '[':
+                        j = match_delim(toks, j)
+                if j < end and toks[j][0] == 'id' and toks[j][1] in ('struct', 'impl', 'fn'):
+                    sub = scan_items(toks, i, end, fn_item.fname, fn_item, fn_item.is_test, max_items=1)
+                    if sub:
+                        out.append(sub[0])
+                        i = sub[0].end
+                        stmt_start = True
+                        continue
+            if t[0] == 'p' and t[1] in _OPEN:
+                k = match_delim(toks, i)
+                stmt_start = toks[i][1] == '{'
+                i = k
+                continue
+            stmt_start = t[0] == 'p' and t[1] == ';'
+            i += 1
+    fn_item.nested = out
+    return out
+
+
+def use_imports(sf):
+    """{local name: full path list} for every non-glob `use` of a source file (all nesting levels
+    of the file's items; `use a::{b, c::d}` trees are expanded)."""
+    out = {}
+
+    def tree(toks, i, end, prefix):
+        # parses one use-tree starting at i; returns index after it
+        path = list(prefix)
+        while i < end:
+            t = toks[i]
+            if t[0] == 'id' and t[1] != 'as':
+                path.append(t[1])
+                i += 1
+                if i < end and toks[i][1] == '::':
+                    i += 1
+                    continue
+                name = path[-1]
+                if i < end and toks[i][0] == 'id' and toks[i][1] == 'as':
+                    name = toks[i + 1][1]
+                    i += 2
+                out[name] = path
+                return i
+            if t[0] == 'p' and t[1] == '{':
+                k = match_delim(toks, i)
+                j = i + 1
+                while j < k - 1:
+                    j = tree(toks, j, k - 1, path)
+                    if j < k - 1 and toks[j][1] == ',':
+                        j += 1
+                return k
+            if t[0] == 'p' and t[1] == '*':
+                return i + 1
+            return i + 1
+        return i
+    for it in sf.walk(include_tests=False):
+        if it.kind == 'use':
+            a = it.start
+            toks = it.toks
+            while a < it.end and not (toks[a][0] == 'id' and toks[a][1] == 'use'):
+                a += 1
+            tree(toks, a + 1, it.end - 1, [])
+    return out
+
+
+def struct_fields(it):
+    """[(field name, (tok_a, tok_b) of its type)] of a struct item, in declaration order.
+    Tuple structs get field names '0', '1', ..."""
+    toks = it.toks
+    out = []
+    if it.tuple_rng is not None:
+        a, b = it.tuple_rng
+        named = False
+    elif it.brace_rng is not None:
+        a, b = it.brace_rng
+        named = True
+    else:
+        return out
+    i = a
+    idx = 0
+    while i < b:
+        # attributes
+        while i < b and toks[i][0] == 'p' and toks[i][1] == '#':
+            i = match_delim(toks, i + 1)
+        if i >= b:
+            break
+        if toks[i][0] == 'id' and toks[i][1] == 'pub':
+            i += 1
+            if i < b and toks[i][1] == '(':
+                i = match_delim(toks, i)
+        if named:
+            name = toks[i][1]
+            if toks[i + 1][1] != ':':
+                raise ScanError('%s:%d: bad struct field' % (it.fname, toks[i][2]))
+            i += 2
+        else:
+            name = str(idx)
+        j = i
+        depth = 0
+        while j < b:
+            x = toks[j]
+            if x[0] == 'p':
+                if x[1] in ('(', '[', '{', '<'):
+                    depth += 1
+                elif x[1] in (')', ']', '}', '>'):
+                    depth -= 1
+                elif x[1] == ',' and depth == 0:
+                    break
+            j += 1
+        out.append((name, (i, j)))
+        idx += 1
+        i = j + 1
+    return out
